@@ -321,7 +321,6 @@ theorem restoreDir_refines_exec_restore (H : Bytes → Digest) (serD : Directory
 theorem restoreFile_refines_exec_restore (H : Bytes → Digest) (fs0 fs : Entry) (q : Grog.Path) (n : Name) (id : Bytes)
     (b : Bytes) (x : Bool) (cas0 : Cas)
     (hsrc : fs0.get (q ++ [n]) = some (.file b x)) (hpar : Clear fs q)
-    (hdst : ∀ e, fs.get (q ++ [n]) = some e → ∃ b' x', e = .file b' x')
     (hH : ∀ b' x', fs.get (q ++ [n]) = some (.file b' x') → H b' = H b → b' = b)
     (comps : Exec.Path → Grog.Path) (canon : Entry → Val) (out : Exec.Path) (hout : comps out = q ++ [n])
     (cas : Cas) (hcas : cas.get (H b) = some b) :
@@ -330,7 +329,7 @@ theorem restoreFile_refines_exec_restore (H : Bytes → Digest) (fs0 fs : Entry)
       ∀ p, (p = out ∨ Diverge (q ++ [n]) (comps p)) →
         absFS comps canon fs' p = writeOuts (absFS comps canon fs) [(⟨false, out⟩, canon (.file b x))] p := by
   refine ⟨by simp [absFS, hout, hsrc], ?_⟩
-  obtain ⟨_, _, hres⟩ := C06.restoreFile_writeFile H fs0 fs q n id b x cas0 hsrc hpar hdst hH
+  obtain ⟨_, _, hres⟩ := C06.restoreFile_writeFile H fs0 fs q n id b x cas0 hsrc hpar hH
   obtain ⟨fs', hr, hget⟩ := hres cas hcas
   refine ⟨fs', hr, ?_⟩
   intro p hp
